@@ -1040,11 +1040,16 @@ func (c *inlCtx) tryCall(st ast.Stmt, call *ast.CallExpr, kind callKind, as *ast
 	// ---- free names mean the same at the call site
 	callScope := c.pk.Types.Scope().Innermost(call.Pos())
 	okNames := true
+	badName := ""
 	wantImports := map[string]string{}
 	guards := map[string]string{}
+	qualified := map[*ast.Ident]bool{}
 	ast.Inspect(body, func(n ast.Node) bool {
 		if sel, isSel := n.(*ast.SelectorExpr); isSel {
 			if x, isX := sel.X.(*ast.Ident); isX {
+				if _, isPN := info.Uses[x].(*types.PkgName); isPN {
+					qualified[sel.Sel] = true // pkg.Name: the name belongs to the other package, only `pkg` must resolve
+				}
 				if _, isPN := info.Uses[x].(*types.PkgName); isPN && guards[x.Name] == "" {
 					switch info.Uses[sel.Sel].(type) {
 					case *types.TypeName:
@@ -1056,7 +1061,7 @@ func (c *inlCtx) tryCall(st ast.Stmt, call *ast.CallExpr, kind callKind, as *ast
 			}
 		}
 		id, isId := n.(*ast.Ident)
-		if !isId {
+		if !isId || qualified[id] {
 			return true
 		}
 		o := info.Uses[id]
@@ -1071,19 +1076,19 @@ func (c *inlCtx) tryCall(st ast.Stmt, call *ast.CallExpr, kind callKind, as *ast
 				// the callee lives in a file that imports a package this file does not: import it here too
 				wantImports[id.Name] = t.Imported().Path()
 			} else if !isPN || pn.Imported() != t.Imported() {
-				okNames = false
+				okNames, badName = false, id.Name
 			}
 		default:
 			if o.Parent() == c.pk.Types.Scope() || o.Parent() == types.Universe {
 				_, at := callScope.LookupParent(id.Name, call.Pos())
 				if at != o {
-					okNames = false
+					okNames, badName = false, id.Name
 				}
 			} else if v, isV := o.(*types.Var); isV && !v.IsField() && recv == nil && (o.Pos() < ft.Pos() || o.Pos() > body.End()) {
 				// a variable of the enclosing function captured by a closure: it must be the same variable at the call
 				_, at := callScope.LookupParent(id.Name, call.Pos())
 				if at != o {
-					okNames = false
+					okNames, badName = false, id.Name
 				}
 			}
 		}
@@ -1091,11 +1096,11 @@ func (c *inlCtx) tryCall(st ast.Stmt, call *ast.CallExpr, kind callKind, as *ast
 	})
 	for n := range wantImports {
 		if guards[n] == "" {
-			okNames = false
+			okNames, badName = false, n
 		}
 	}
 	if !okNames {
-		c.skip(call, name, "a package-level name used by the callee is shadowed or not imported at the call site")
+		c.skip(call, name, "a package-level name used by the callee is shadowed or not imported at the call site: "+badName)
 		return
 	}
 	for n, path := range wantImports {
@@ -1243,6 +1248,10 @@ func (c *inlCtx) tryCall(st ast.Stmt, call *ast.CallExpr, kind callKind, as *ast
 				if _, isLit := ast.Unparen(arg).(*ast.BasicLit); isLit {
 					b.subst = false
 				}
+			}
+			// the same for the untyped nil (`f(nil)` with a slice parameter: generic callees could not infer from it)
+			if tv, has := info.Types[arg]; has && tv.IsNil() {
+				b.subst = false
 			}
 		}
 		binds = append(binds, b)
